@@ -1,6 +1,1992 @@
-//! C11 — not built yet.
-use mcx::{Ctx, Value};
-pub fn run(_ctx: &Ctx, _replay: Option<&Value>) -> i32 {
-    eprintln!("C11: check not built yet");
-    2
+//! C11 — assembly is deterministic, history-independent and self-contained.
+//!
+//! Part S (explicit state): one `Assembler` per history. Configurations = library order (L1,L2 /
+//! L2,L1) x kernel (with / without) x debug mode (on / off); action = `compile(s)` for s in a fixed
+//! pool of sources; ALL histories up to length 2 (quick) / 3 (thorough) are enumerated (the
+//! procedure cache is private, so states cannot be merged: the space is the whole history tree and
+//! a state is reached by re-executing its history on a new assembler). Oracle: the verdict of a
+//! FRESH assembler of the same configuration is the reference — same program (root hash, kernel,
+//! code-block table), same execution outcome, no panic; closure of the code-block table under
+//! call / syscall / procref targets; library order, debug mode and re-export paths do not change
+//! the program. The same machine is also run through `stateright`'s BFS checker (thorough tier).
+//!
+//! Part E (bounded exhaustive): every parameterised instruction form x {lowest-1, lowest, highest,
+//! highest+1}, local indices x number of locals, call/syscall/caller in and out of kernels, export
+//! in executables, undefined / duplicate procedures, zero-immediate divisions: in range => Ok,
+//! out of range => Err, never a panic (release and `checked` profile).
+
+use crate::common::*;
+use assembly::{ast::ModuleAst, Assembler, LibraryNamespace, LibraryPath, MaslLibrary, Module, Version};
+use mcx::ctx::{load_known, sig_matches, Known};
+use mcx::{guard, json, Ctx, Tier, Value};
+use rayon::prelude::*;
+use std::collections::{BTreeMap, BTreeSet};
+use vm_core::code_blocks::{CodeBlock, Dyn};
+use vm_core::crypto::hash::RpoDigest;
+use vm_core::{Program, StarkField};
+
+const FIXED_STACK: [u64; 8] = [5, 6, 7, 8, 9, 10, 11, 12];
+
+// ================================================================================================
+// universe: libraries, kernel, source pool
+// ================================================================================================
+
+const KERNEL_SRC: &str = "use.l1::util
+export.k1
+    push.5 add
+end
+export.k2
+    caller
+end
+export.k3
+    exec.util::same push.2 mul
+end
+";
+
+const L1_BASE: &str = "proc.helper
+    push.7 mul
+end
+export.foo
+    push.3 add
+end
+export.bar.1
+    dup loc_store.0 loc_load.0 mul
+end
+export.callhelper
+    call.helper
+end
+export.twice
+    exec.foo exec.foo
+end
+";
+const L1_B: &str = "use.l1::base
+export.p1
+    procref.base::foo
+end
+";
+const L1_UTIL: &str = "export.same
+    push.1 add
+end
+";
+const L2_RE: &str = "use.l1::base
+export.base::foo
+export.base::bar->baz
+export.own
+    push.11 add
+end
+";
+const L2_DEEP: &str = "use.l2::re
+export.re::foo->foo3
+export.viacall
+    call.re::baz
+end
+";
+const L2_NEST: &str = "use.l1::base
+export.outer
+    exec.base::callhelper
+end
+export.outer2
+    exec.outer push.1 add
+end
+";
+const L2_UTIL: &str = "export.same
+    push.2 add
+end
+";
+/// a library module with one invalid procedure (`caller` outside a kernel): nothing of it may be usable
+const L2_HALF: &str = "use.l1::base
+export.base::foo->hfoo
+export.fine
+    push.1 add
+end
+export.broken
+    caller
+end
+";
+
+/// re-exports: alias path -> path of the procedure it stands for
+const ALIASES: [(&str, &str); 3] =
+    [("l2::re::foo", "l1::base::foo"), ("l2::re::baz", "l1::base::bar"), ("l2::deep::foo3", "l1::base::foo")];
+
+/// what the documentation implies for the callset of a library procedure: the procedures it calls
+/// or takes a `procref` of, directly or through procedures it `exec`s (written down by hand)
+fn documented_callset(canonical_path: &str) -> &'static [&'static str] {
+    match canonical_path {
+        "l1::b::p1" => &["l1::base::foo"],
+        "l1::base::callhelper" | "l2::nest::outer" | "l2::nest::outer2" => &["l1::base::helper"],
+        "l2::deep::viacall" => &["l1::base::bar"],
+        _ => &[],
+    }
+}
+
+fn canon_path(p: &str) -> &str {
+    ALIASES.iter().find(|(a, _)| *a == p).map(|(_, c)| *c).unwrap_or(p)
+}
+
+#[derive(Clone, Debug)]
+enum RefTarget {
+    /// library procedure, full path
+    Lib(&'static str),
+    /// local procedure of the source itself: (definitions, name)
+    Local(&'static str, &'static str),
+}
+
+#[derive(Clone, Debug)]
+struct Src {
+    name: &'static str,
+    text: String,
+    /// the documentation says this source is a valid program (given a kernel if `needs_kernel`)
+    valid: bool,
+    needs_kernel: bool,
+    /// fails on a fresh assembler only because it names a MAST root unknown to an empty cache
+    root_only: bool,
+    /// library procedures referenced (directly or through the listed library procedures)
+    uses: Vec<&'static str>,
+    /// procedures whose MAST root is pushed by a `procref` reachable in this program
+    procrefs: Vec<RefTarget>,
+}
+
+struct Universe {
+    l1: MaslLibrary,
+    l2: MaslLibrary,
+    sources: Vec<Src>,
+    /// MAST roots of the exported library procedures (full path -> root)
+    proc_roots: BTreeMap<String, RpoDigest>,
+    /// resolved procref targets per source
+    procref_roots: Vec<Vec<(String, RpoDigest)>>,
+    /// pairs of sources which must compile to the same MAST root (direct vs re-exported path)
+    pairs: Vec<(usize, usize)>,
+    foo_root: RpoDigest,
+    /// library procedures whose root could not be computed: (path, one-line program, error)
+    root_failures: Vec<(String, String, String)>,
+}
+
+fn module(path: &str, src: &str) -> Module {
+    Module::new(
+        LibraryPath::new(path).expect("module path"),
+        ModuleAst::parse(src).unwrap_or_else(|e| panic!("library module {path} must parse: {e}")),
+    )
+}
+
+fn library(ns: &str, modules: Vec<Module>) -> MaslLibrary {
+    MaslLibrary::new(LibraryNamespace::new(ns).expect("namespace"), Version::default(), false, modules, vec![])
+        .expect("library")
+}
+
+fn hex(d: &RpoDigest) -> String {
+    d.to_hex()
+}
+
+fn build_universe() -> Universe {
+    // MAST root of l1::base::foo, computed with a bootstrap assembler which only knows l1::base
+    let boot = library("l1", vec![module("l1::base", L1_BASE)]);
+    let foo_root = Assembler::default()
+        .with_library(&boot)
+        .expect("bootstrap library")
+        .compile("use.l1::base begin exec.base::foo end")
+        .expect("bootstrap program")
+        .hash();
+    let e: Vec<u64> = foo_root.as_elements().iter().map(|x| x.as_int()).collect();
+    // a::p2 spells out what `procref.base::foo` pushes: identical MAST root, empty callset
+    let l1_a = format!("export.p2\n    push.{}.{}.{}.{}\nend\n", e[0], e[1], e[2], e[3]);
+    let l1 = library(
+        "l1",
+        vec![module("l1::base", L1_BASE), module("l1::a", &l1_a), module("l1::b", L1_B), module("l1::util", L1_UTIL)],
+    );
+    let l2 = library(
+        "l2",
+        vec![module("l2::re", L2_RE), module("l2::deep", L2_DEEP), module("l2::nest", L2_NEST), module("l2::util", L2_UTIL), module("l2::half", L2_HALF)],
+    );
+    // a root no procedure will ever have in the cache: the hash of an unrelated span
+    let never = Assembler::default().compile("begin push.424242 push.17 mul end").expect("never").hash();
+
+    let mut sources: Vec<Src> = vec![];
+    let mut add = |name: &'static str,
+                   text: String,
+                   valid: bool,
+                   needs_kernel: bool,
+                   uses: Vec<&'static str>,
+                   procrefs: Vec<RefTarget>| {
+        sources.push(Src { name, text, valid, needs_kernel, root_only: false, uses, procrefs });
+    };
+    use RefTarget::*;
+    add("exec_direct", "use.l1::base begin exec.base::foo end".into(), true, false, vec!["l1::base::foo"], vec![]);
+    add("exec_reexport", "use.l2::re begin exec.re::foo end".into(), true, false, vec!["l2::re::foo"], vec![]);
+    add("call_direct", "use.l1::base begin call.base::bar end".into(), true, false, vec!["l1::base::bar"], vec![]);
+    add("call_reexport", "use.l2::re begin call.re::baz end".into(), true, false, vec!["l2::re::baz"], vec![]);
+    add(
+        "procref_direct_dynexec",
+        "use.l1::base begin procref.base::foo dynexec dropw end".into(),
+        true,
+        false,
+        vec!["l1::base::foo"],
+        vec![Lib("l1::base::foo")],
+    );
+    add(
+        "procref_reexport_dyncall",
+        "use.l2::deep begin procref.deep::foo3 dyncall dropw end".into(),
+        true,
+        false,
+        vec!["l2::deep::foo3"],
+        vec![Lib("l1::base::foo")],
+    );
+    add(
+        "shadow_local",
+        "use.l1::base proc.foo push.100 add end begin push.0 drop debug.stack exec.foo exec.base::foo call.foo end".into(),
+        true,
+        false,
+        vec!["l1::base::foo"],
+        vec![],
+    );
+    const SHADOW2_DEFS: &str = "proc.foo push.2 mul end proc.bar.2 push.1 loc_store.1 loc_load.1 add end";
+    add(
+        "shadow_local_other",
+        format!("{SHADOW2_DEFS} begin call.foo exec.bar procref.bar dropw end"),
+        true,
+        false,
+        vec![],
+        vec![Local(SHADOW2_DEFS, "bar")],
+    );
+    add("same_body_a", "proc.mine push.3 add end begin call.mine end".into(), true, false, vec![], vec![]);
+    const SAME_B_DEFS: &str = "proc.other push.3 add end";
+    add(
+        "same_body_b",
+        format!("{SAME_B_DEFS} begin procref.other dynexec dropw exec.other end"),
+        true,
+        false,
+        vec![],
+        vec![Local(SAME_B_DEFS, "other")],
+    );
+    add(
+        "call_by_root_loaded",
+        format!("use.l1::base begin exec.base::foo call.{} end", hex(&foo_root)),
+        true,
+        false,
+        vec!["l1::base::foo"],
+        vec![],
+    );
+    add(
+        "hd_b",
+        "use.l1::b begin exec.b::p1 dynexec dropw end".into(),
+        true,
+        false,
+        vec!["l1::b::p1", "l1::base::foo"],
+        vec![Lib("l1::base::foo")],
+    );
+    add("hd_a", "use.l1::a begin exec.a::p2 dropw end".into(), true, false, vec!["l1::a::p2"], vec![]);
+    add(
+        "hd_both",
+        "use.l1::a use.l1::b begin exec.a::p2 dropw exec.b::p1 dynexec dropw end".into(),
+        true,
+        false,
+        vec!["l1::a::p2", "l1::b::p1", "l1::base::foo"],
+        vec![Lib("l1::base::foo")],
+    );
+    add(
+        "nested_call",
+        "use.l2::nest begin exec.nest::outer2 end".into(),
+        true,
+        false,
+        vec!["l2::nest::outer2", "l2::nest::outer", "l1::base::callhelper"],
+        vec![],
+    );
+    add(
+        "call_in_lib_to_alias",
+        "use.l2::deep begin exec.deep::viacall end".into(),
+        true,
+        false,
+        vec!["l2::deep::viacall", "l2::re::baz"],
+        vec![],
+    );
+    add(
+        "syscalls",
+        "proc.usr syscall.k2 dropw end begin syscall.k1 call.usr syscall.k3 end".into(),
+        true,
+        true,
+        vec![],
+        vec![],
+    );
+    add("same_name_l1", "use.l1::util begin exec.util::same end".into(), true, false, vec!["l1::util::same"], vec![]);
+    add(
+        "same_name_l2",
+        "use.l2::util begin exec.util::same call.util::same end".into(),
+        true,
+        false,
+        vec!["l2::util::same"],
+        vec![],
+    );
+    // fails on a fresh assembler (phantom call), may compile once the cache knows the root
+    add("call_by_root_only", format!("begin call.{} end", hex(&foo_root)), false, false, vec![], vec![]);
+    // invalid sources
+    add(
+        "inv_undefined_import",
+        "use.l1::b begin exec.b::p1 dropw exec.b::nope end".into(),
+        false,
+        false,
+        vec!["l1::b::p1", "l1::base::foo"],
+        vec![],
+    );
+    add("inv_local_index", "proc.x.1 loc_load.1 end begin exec.x end".into(), false, false, vec![], vec![]);
+    add("inv_caller", "proc.c caller end begin exec.c end".into(), false, false, vec![], vec![]);
+    add("inv_export", "export.e push.1 end begin exec.e end".into(), false, false, vec![], vec![]);
+    add(
+        "inv_phantom_after_p2",
+        format!("use.l1::a begin exec.a::p2 dropw call.{} end", hex(&never)),
+        false,
+        false,
+        vec!["l1::a::p2"],
+        vec![],
+    );
+    // sources using a library module which contains an invalid procedure
+    add("inv_broken_module_alias", "use.l2::half begin exec.half::hfoo end".into(), false, false, vec!["l1::base::foo"], vec![]);
+    add("inv_broken_module_proc", "use.l2::half begin exec.half::fine end".into(), false, false, vec![], vec![]);
+    for s in sources.iter_mut() {
+        if s.name == "call_by_root_only" {
+            s.root_only = true;
+        }
+    }
+
+    let mut u = Universe {
+        l1,
+        l2,
+        sources,
+        proc_roots: BTreeMap::new(),
+        procref_roots: vec![],
+        pairs: vec![],
+        foo_root,
+        root_failures: vec![],
+    };
+    let idx = |u: &Universe, n: &str| u.sources.iter().position(|s| s.name == n).expect("source name");
+    u.pairs = vec![
+        (idx(&u, "exec_direct"), idx(&u, "exec_reexport")),
+        (idx(&u, "call_direct"), idx(&u, "call_reexport")),
+    ];
+
+    // roots of the exported library procedures, each computed on its own fresh assembler
+    let cfg0 = Config { order: 0, kernel: false, debug: false };
+    for path in [
+        "l1::base::foo",
+        "l1::base::bar",
+        "l1::base::callhelper",
+        "l1::base::twice",
+        "l1::a::p2",
+        "l1::b::p1",
+        "l1::util::same",
+        "l2::re::foo",
+        "l2::re::baz",
+        "l2::re::own",
+        "l2::deep::foo3",
+        "l2::deep::viacall",
+        "l2::nest::outer",
+        "l2::nest::outer2",
+        "l2::util::same",
+    ] {
+        let (module, name) = path.rsplit_once("::").unwrap();
+        let alias = module.rsplit_once("::").unwrap().1;
+        let src = format!("use.{module} begin exec.{alias}::{name} end");
+        let r = match build_assembler(&u, cfg0) {
+            Err(e) => Err(format!("assembler setup failed: {e}")),
+            Ok(asm) => match guard::catch(|| asm.compile(&src)) {
+                Err(p) => Err(format!("panic: {}", guard::short_panic(&p))),
+                Ok(Err(e)) => Err(format!("{e}")),
+                Ok(Ok(p)) => Ok(p.hash()),
+            },
+        };
+        match r {
+            Ok(h) => {
+                u.proc_roots.insert(path.to_string(), h);
+            }
+            // a valid one-line program over the libraries is refused: reported as a violation by `run`
+            Err(e) => u.root_failures.push((path.to_string(), src, e)),
+        }
+    }
+    if let Some(r) = u.proc_roots.get("l1::base::foo") {
+        assert_eq!(*r, u.foo_root, "bootstrap root of foo");
+    }
+    u.procref_roots = u
+        .sources
+        .iter()
+        .map(|s| {
+            s.procrefs
+                .iter()
+                .filter_map(|t| match t {
+                    Lib(p) => u.proc_roots.get(*p).map(|r| (p.to_string(), *r)),
+                    Local(defs, name) => match guard::catch(|| Assembler::default().compile(format!("{defs} begin exec.{name} end"))) {
+                        Ok(Ok(p)) => Some((format!("local::{name}"), p.hash())),
+                        // the source itself will be refused as well and is reported there
+                        _ => None,
+                    },
+                })
+                .collect()
+        })
+        .collect();
+    u
+}
+
+// ================================================================================================
+// configurations, observations
+// ================================================================================================
+
+#[derive(Clone, Copy, Debug, PartialEq, Eq, Hash, PartialOrd, Ord)]
+struct Config {
+    /// 0: L1 then L2, 1: L2 then L1
+    order: u8,
+    kernel: bool,
+    debug: bool,
+}
+
+impl Config {
+    fn all() -> Vec<Config> {
+        let mut v = vec![];
+        for order in [0u8, 1] {
+            for kernel in [false, true] {
+                for debug in [false, true] {
+                    v.push(Config { order, kernel, debug });
+                }
+            }
+        }
+        v
+    }
+    fn json(&self) -> Value {
+        json!({"library_order": if self.order == 0 { "L1,L2" } else { "L2,L1" }, "kernel": self.kernel, "debug": self.debug})
+    }
+    fn from_json(v: &Value) -> Config {
+        Config {
+            order: if v["library_order"] == "L1,L2" { 0 } else { 1 },
+            kernel: v["kernel"].as_bool().expect("kernel"),
+            debug: v["debug"].as_bool().expect("debug"),
+        }
+    }
+    fn tag(&self) -> String {
+        format!(
+            "{}{}{}",
+            if self.order == 0 { "L1L2" } else { "L2L1" },
+            if self.kernel { "+k" } else { "" },
+            if self.debug { "+dbg" } else { "" }
+        )
+    }
+}
+
+fn build_assembler(u: &Universe, c: Config) -> Result<Assembler, String> {
+    let r = guard::catch(|| -> Result<Assembler, String> {
+        let a = Assembler::default().with_debug_mode(c.debug);
+        let a = if c.order == 0 {
+            a.with_library(&u.l1).and_then(|a| a.with_library(&u.l2))
+        } else {
+            a.with_library(&u.l2).and_then(|a| a.with_library(&u.l1))
+        }
+        .map_err(|e| format!("with_library: {e}"))?;
+        if c.kernel {
+            a.with_kernel(KERNEL_SRC).map_err(|e| format!("with_kernel: {e}"))
+        } else {
+            Ok(a)
+        }
+    });
+    match r {
+        Ok(r) => r,
+        Err(p) => Err(format!("panic: {}", guard::short_panic(&p))),
+    }
+}
+
+#[derive(Default, Clone, Debug)]
+struct Walk {
+    /// hashes of all blocks seen (sub-trees of the root and of every reached table entry)
+    seen: BTreeSet<[u8; 32]>,
+    call_targets: BTreeSet<[u8; 32]>,
+    missing_calls: Vec<String>,
+    missing_syscalls: Vec<String>,
+    syscalls_not_in_kernel: Vec<String>,
+    proxies: usize,
+}
+
+fn walk(b: &CodeBlock, p: &Program, w: &mut Walk) {
+    w.seen.insert(b.hash().into());
+    match b {
+        CodeBlock::Span(_) | CodeBlock::Dyn(_) => {}
+        CodeBlock::Join(j) => {
+            walk(j.first(), p, w);
+            walk(j.second(), p, w);
+        }
+        CodeBlock::Split(s) => {
+            walk(s.on_true(), p, w);
+            walk(s.on_false(), p, w);
+        }
+        CodeBlock::Loop(l) => walk(l.body(), p, w),
+        CodeBlock::Proxy(_) => w.proxies += 1,
+        CodeBlock::Call(c) => {
+            let t = c.fn_hash();
+            if t == Dyn::dyn_hash() {
+                return; // dyncall: the target comes from the stack
+            }
+            let key: [u8; 32] = t.into();
+            if c.is_syscall() && !p.kernel().contains_proc(t) {
+                w.syscalls_not_in_kernel.push(hex(&t));
+            }
+            let first = w.call_targets.insert(key);
+            match p.cb_table().get(t) {
+                None => {
+                    if first {
+                        if c.is_syscall() {
+                            w.missing_syscalls.push(hex(&t));
+                        } else {
+                            w.missing_calls.push(hex(&t));
+                        }
+                    }
+                }
+                Some(body) => {
+                    if first {
+                        walk(body, p, w);
+                    }
+                }
+            }
+        }
+    }
+}
+
+/// what a successful compilation is reduced to
+#[derive(Clone, Debug)]
+struct Compiled {
+    program: Program,
+    hash: String,
+    kernel: Vec<String>,
+    /// roots of all entries of the code-block table
+    table: BTreeSet<String>,
+    walk: Walk,
+    missing_procrefs: Vec<String>,
+    outcome: Outcome,
+}
+
+#[derive(Clone, Debug)]
+enum Verdict {
+    Ok(Box<Compiled>),
+    /// (variant name, message)
+    Err(String, String),
+    Panic(String),
+}
+
+impl Verdict {
+    fn kind(&self) -> String {
+        match self {
+            Verdict::Ok(c) => format!("ok/{}", outcome_class(&c.outcome)),
+            Verdict::Err(v, _) => format!("err/{v}"),
+            Verdict::Panic(_) => "panic".into(),
+        }
+    }
+    fn brief(&self) -> String {
+        match self {
+            Verdict::Ok(c) => format!(
+                "Ok(hash={} kernel={:?} cb_table={} entries exec={})",
+                &c.hash[..18],
+                c.kernel.iter().map(|k| &k[..10]).collect::<Vec<_>>(),
+                c.table.len(),
+                brief_outcome(&c.outcome)
+            ),
+            Verdict::Err(v, m) => format!("Err({v}: {})", m.chars().take(120).collect::<String>()),
+            Verdict::Panic(p) => format!("Panic({})", guard::short_panic(p)),
+        }
+    }
+}
+
+/// source file of a panic location (no line number, path relative to the repository root whatever
+/// checkout the harness was built against), for signatures
+fn panic_file(p: &str) -> String {
+    let sp = guard::short_panic(p);
+    let file = sp.split(" @ ").last().unwrap_or("").split(':').next().unwrap_or("");
+    let parts: Vec<&str> = file.split('/').collect();
+    match parts.iter().position(|c| *c == "src") {
+        Some(i) if i > 0 => parts[i - 1..].join("/"),
+        _ => file.to_string(),
+    }
+}
+
+fn outcome_class(o: &Outcome) -> String {
+    match o {
+        Outcome::Ok(_) => "ok".into(),
+        Outcome::Err(e) => err_variant(e),
+        Outcome::AsmErr(_) => "asm_err".into(),
+        Outcome::Panic(_) => "panic".into(),
+    }
+}
+
+fn brief_outcome(o: &Outcome) -> String {
+    match o {
+        Outcome::Ok(s) => format!("Ok{:?}", &s[..6.min(s.len())]),
+        o => o.brief().chars().take(140).collect(),
+    }
+}
+
+/// `DefaultHost` prints the VM state for `debug.*`, `emit` and `trace`; this host stays silent.
+struct QuietHost(processor::DefaultHost<processor::MemAdviceProvider>);
+
+impl processor::Host for QuietHost {
+    fn get_advice<S: processor::ProcessState>(
+        &mut self,
+        process: &S,
+        extractor: processor::AdviceExtractor,
+    ) -> Result<processor::HostResponse, processor::ExecutionError> {
+        self.0.get_advice(process, extractor)
+    }
+    fn set_advice<S: processor::ProcessState>(
+        &mut self,
+        process: &S,
+        injector: processor::AdviceInjector,
+    ) -> Result<processor::HostResponse, processor::ExecutionError> {
+        self.0.set_advice(process, injector)
+    }
+    fn on_event<S: processor::ProcessState>(&mut self, _: &S, _: u32) -> Result<processor::HostResponse, processor::ExecutionError> {
+        Ok(processor::HostResponse::None)
+    }
+    fn on_debug<S: processor::ProcessState>(
+        &mut self,
+        _: &S,
+        _: &vm_core::DebugOptions,
+    ) -> Result<processor::HostResponse, processor::ExecutionError> {
+        Ok(processor::HostResponse::None)
+    }
+    fn on_trace<S: processor::ProcessState>(&mut self, _: &S, _: u32) -> Result<processor::HostResponse, processor::ExecutionError> {
+        Ok(processor::HostResponse::None)
+    }
+}
+
+fn run_quiet(program: &Program) -> Outcome {
+    let si = stack_inputs(&FIXED_STACK);
+    match guard::catch(|| processor::execute(program, si, QuietHost(host(&[])), processor::ExecutionOptions::default())) {
+        Err(p) => Outcome::Panic(p),
+        Ok(Err(e)) => Outcome::Err(format!("{e:?}")),
+        Ok(Ok(t)) => Outcome::Ok(t.stack_outputs().stack().to_vec()),
+    }
+}
+
+fn not_found(o: &Outcome) -> bool {
+    matches!(o, Outcome::Err(e) if e.starts_with("CodeBlockNotFound") || e.starts_with("DynamicCodeBlockNotFound"))
+}
+
+fn compile_once(u: &Universe, asm: &Assembler, si: usize, execute: bool) -> Verdict {
+    let s = &u.sources[si];
+    match guard::catch(|| asm.compile(&s.text)) {
+        Err(p) => Verdict::Panic(p),
+        Ok(Err(e)) => Verdict::Err(err_variant(&format!("{e:?}")), format!("{e}")),
+        Ok(Ok(program)) => {
+            let mut w = Walk::default();
+            walk(program.root(), &program, &mut w);
+            let missing_procrefs = u.procref_roots[si]
+                .iter()
+                .filter(|(_, r)| !program.cb_table().has(*r))
+                .map(|(n, r)| format!("{n}={}", hex(r)))
+                .collect();
+            let outcome = if execute { run_quiet(&program) } else { Outcome::Ok(vec![]) };
+            Verdict::Ok(Box::new(Compiled {
+                hash: hex(&program.hash()),
+                kernel: program.kernel().proc_hashes().iter().map(hex).collect(),
+                table: table_keys(&program),
+                walk: w,
+                missing_procrefs,
+                outcome,
+                program,
+            }))
+        }
+    }
+}
+
+/// The code-block table has no iterator; its `Debug` rendering is the map `{[k0, .., k31]: block, ..}`.
+/// The keys (32 bytes each, followed by `: `) are recovered from it; no other 32-element array is
+/// followed by a colon in that rendering.
+fn table_keys(p: &Program) -> BTreeSet<String> {
+    let text = format!("{:?}", p.cb_table());
+    let b = text.as_bytes();
+    let mut out = BTreeSet::new();
+    let mut i = 0;
+    while i < b.len() {
+        if b[i] != b'[' {
+            i += 1;
+            continue;
+        }
+        // try to read `[d, d, ..., d]: ` with exactly 32 numbers < 256
+        let mut j = i + 1;
+        let mut key = [0u8; 32];
+        let mut n = 0;
+        let ok = loop {
+            let st = j;
+            let mut val: u32 = 0;
+            while j < b.len() && b[j].is_ascii_digit() && j - st < 4 {
+                val = val * 10 + (b[j] - b'0') as u32;
+                j += 1;
+            }
+            if j == st || val > 255 || n >= 32 {
+                break false;
+            }
+            key[n] = val as u8;
+            n += 1;
+            if b[j..].starts_with(b", ") {
+                j += 2;
+            } else if b[j..].starts_with(b"]: ") {
+                break n == 32;
+            } else {
+                break false;
+            }
+        };
+        if ok {
+            let d = RpoDigest::try_from(key).expect("table key is a digest");
+            out.insert(hex(&d));
+            i = j;
+        } else {
+            i += 1;
+        }
+    }
+    assert_eq!(out.is_empty(), p.cb_table().is_empty(), "code-block table keys could not be recovered from {text}");
+    for k in &out {
+        let d = RpoDigest::try_from(k.as_str()).expect("hex digest");
+        assert!(p.cb_table().has(d), "recovered key {k} is not in the table");
+    }
+    out
+}
+
+/// the set of roots present in a code-block table, measured by probing (the table has no iterator)
+fn table_roots(p: &Program, probes: &BTreeSet<[u8; 32]>) -> BTreeSet<String> {
+    probes
+        .iter()
+        .filter_map(|k| RpoDigest::try_from(*k).ok())
+        .filter(|d| p.cb_table().has(*d))
+        .map(|d| hex(&d))
+        .collect()
+}
+
+// ================================================================================================
+// the history machine
+// ================================================================================================
+
+struct Machine {
+    u: Universe,
+    configs: Vec<Config>,
+    /// reference verdicts: fresh[config index][source index]
+    fresh: Vec<Vec<Verdict>>,
+    /// every digest seen anywhere while computing the references (probe set for table membership)
+    probes: BTreeSet<[u8; 32]>,
+    known: Vec<Known>,
+    max_len: usize,
+}
+
+#[derive(Clone, Debug)]
+struct Fail {
+    signature: Value,
+    summary: String,
+    case: Value,
+}
+
+#[derive(Default)]
+struct NodeReport {
+    fails: Vec<Fail>,
+    /// classification of the node for the histograms
+    class: String,
+    cache_dependent: bool,
+}
+
+impl Machine {
+    fn new(u: Universe, max_len: usize, known: Vec<Known>) -> Machine {
+        let configs = Config::all();
+        let fresh: Vec<Vec<Verdict>> = configs
+            .par_iter()
+            .map(|&c| {
+                (0..u.sources.len())
+                    .map(|si| match build_assembler(&u, c) {
+                        Ok(a) => compile_once(&u, &a, si, true),
+                        Err(e) => Verdict::Panic(format!("assembler setup failed: {e}")),
+                    })
+                    .collect()
+            })
+            .collect();
+        let mut probes: BTreeSet<[u8; 32]> = BTreeSet::new();
+        for r in u.proc_roots.values() {
+            probes.insert((*r).into());
+        }
+        for rs in &u.procref_roots {
+            for (_, r) in rs {
+                probes.insert((*r).into());
+            }
+        }
+        for per_cfg in &fresh {
+            for v in per_cfg {
+                if let Verdict::Ok(c) = v {
+                    probes.extend(c.walk.seen.iter().cloned());
+                    probes.extend(c.walk.call_targets.iter().cloned());
+                    for k in c.program.kernel().proc_hashes() {
+                        probes.insert((*k).into());
+                    }
+                }
+            }
+        }
+        Machine { u, configs, fresh, probes, known, max_len }
+    }
+
+    fn case_json(&self, ci: usize, hist: &[usize]) -> Value {
+        json!({
+            "part": "S",
+            "config": self.configs[ci].json(),
+            "history": hist.iter().map(|&i| self.u.sources[i].name).collect::<Vec<_>>(),
+            "history_sources": hist.iter().map(|&i| self.u.sources[i].text.clone()).collect::<Vec<_>>(),
+        })
+    }
+
+    /// two different library procedures with the same MAST root but different callsets, one used by
+    /// `si`, the other by an earlier source of the history (or by `si` itself)
+    fn equal_root_pair(&self, hist_before: &[usize], si: usize) -> Option<(String, String)> {
+        let mine = &self.u.sources[si].uses;
+        let mut others: Vec<&str> = vec![];
+        for &h in hist_before {
+            others.extend(self.u.sources[h].uses.iter().cloned());
+        }
+        others.extend(mine.iter().cloned());
+        for p in mine {
+            for q in &others {
+                let (cp, cq) = (canon_path(p), canon_path(q));
+                if cp != cq {
+                    if let (Some(rp), Some(rq)) = (self.u.proc_roots.get(cp), self.u.proc_roots.get(cq)) {
+                        if rp == rq && documented_callset(cp) != documented_callset(cq) {
+                            return Some((cp.to_string(), cq.to_string()));
+                        }
+                    }
+                }
+            }
+        }
+        None
+    }
+
+    /// closure / run-time availability of one successfully compiled program
+    fn closure_fails(&self, ci: usize, hist: &[usize], c: &Compiled, when: &str, out: &mut Vec<Fail>) {
+        let si = *hist.last().unwrap();
+        let name = self.u.sources[si].name;
+        let case = self.case_json(ci, hist);
+        let eq = self.equal_root_pair(&hist[..hist.len() - 1], si);
+        let mut push = |what: &str, detail: String| {
+            let what = match (&eq, what) {
+                (Some(_), "procref_target_missing") | (Some(_), "call_target_missing") => {
+                    "missing_callset_for_equal_mast_root"
+                }
+                _ => what,
+            };
+            out.push(Fail {
+                signature: json!({"part": "S", "kind": "closure", "what": what, "source": name, "when": when}),
+                summary: format!(
+                    "[{} {:?}] {detail}{}; exec={}",
+                    self.configs[ci].tag(),
+                    hist.iter().map(|&i| self.u.sources[i].name).collect::<Vec<_>>(),
+                    eq.as_ref().map(|(a, b)| format!(" ({a} and {b} have the same MAST root but different callsets)")).unwrap_or_default(),
+                    brief_outcome(&c.outcome)
+                ),
+                case: case.clone(),
+            });
+        };
+        let before = c.walk.missing_calls.len() + c.walk.missing_syscalls.len() + c.missing_procrefs.len();
+        if !c.walk.missing_calls.is_empty() {
+            push("call_target_missing", format!("call targets not in cb_table: {:?}", c.walk.missing_calls));
+        }
+        if !c.walk.missing_syscalls.is_empty() {
+            push("syscall_target_missing", format!("syscall targets not in cb_table: {:?}", c.walk.missing_syscalls));
+        }
+        if !c.walk.syscalls_not_in_kernel.is_empty() {
+            push("syscall_not_in_kernel", format!("syscall targets not in program kernel: {:?}", c.walk.syscalls_not_in_kernel));
+        }
+        if !c.missing_procrefs.is_empty() {
+            push("procref_target_missing", format!("procref targets not in cb_table: {:?}", c.missing_procrefs));
+        }
+        if c.walk.proxies > 0 {
+            push("proxy_block", format!("{} proxy blocks in an assembled program", c.walk.proxies));
+        }
+        if before == 0 && not_found(&c.outcome) {
+            push("block_not_found_at_run_time", "execution could not find a code block".into());
+        }
+        if let Outcome::Panic(p) = &c.outcome {
+            push("execution_panics", guard::short_panic(p));
+        }
+    }
+
+    /// evaluates the oracle for the LAST compilation of `hist` on configuration `ci`
+    fn check_node(&self, ci: usize, hist: &[usize], execute: bool) -> NodeReport {
+        let mut rep = NodeReport::default();
+        if hist.is_empty() {
+            rep.class = "root".into();
+            return rep;
+        }
+        let cfg = self.configs[ci];
+        let si = *hist.last().unwrap();
+        let src = &self.u.sources[si];
+        let names: Vec<&str> = hist.iter().map(|&i| self.u.sources[i].name).collect();
+        let tag = cfg.tag();
+        let asm = match build_assembler(&self.u, cfg) {
+            Ok(a) => a,
+            Err(e) => {
+                rep.class = "setup_failed".into();
+                rep.fails.push(Fail {
+                    signature: json!({"part": "S", "kind": "assembler_setup_failed"}),
+                    summary: format!("[{tag}] {e}"),
+                    case: self.case_json(ci, hist),
+                });
+                return rep;
+            }
+        };
+        for &h in &hist[..hist.len() - 1] {
+            let _ = guard::catch(|| asm.compile(&self.u.sources[h].text));
+        }
+        let got = compile_once(&self.u, &asm, si, execute);
+        let fresh = &self.fresh[ci][si];
+        rep.class = format!("fresh:{} -> after:{}", fresh.kind(), got.kind());
+        let mut fails: Vec<Fail> = vec![];
+        let mut fail = |what: &str, detail: String| {
+            fails.push(Fail {
+                signature: json!({"part": "S", "kind": "history_dependence", "what": what, "source": src.name}),
+                summary: format!("[{tag} {names:?}] {detail}"),
+                case: self.case_json(ci, hist),
+            });
+        };
+        let mut extra: Vec<Fail> = vec![];
+        match (fresh, &got) {
+            (_, Verdict::Panic(p)) => {
+                extra.push(Fail {
+                    signature: json!({"part": "S", "kind": "panic", "when": "history", "source": src.name, "panic": panic_file(p)}),
+                    summary: format!("[{tag} {names:?}] compile panicked: {} (fresh: {})", guard::short_panic(p), fresh.brief()),
+                    case: self.case_json(ci, hist),
+                });
+            }
+            (Verdict::Panic(_), _) => {} // reported by the fresh phase
+            (Verdict::Err(..), Verdict::Err(..)) => {}
+            (Verdict::Err(fv, fm), Verdict::Ok(c)) => {
+                if src.root_only && fv == "PhantomCallsNotAllowed" {
+                    rep.cache_dependent = true;
+                    // the program that does come out must still be self-contained
+                    self.closure_fails(ci, hist, c, "history", &mut extra);
+                } else {
+                    fail(
+                        "accepted_after_history",
+                        format!("a fresh assembler rejects the source ({fv}: {fm}) but after this history it compiles: {}", got.brief()),
+                    );
+                }
+            }
+            (Verdict::Ok(_), Verdict::Err(v, m)) => {
+                fail("compile_fails_after_history", format!("fresh: {} ; after history: Err({v}: {m})", fresh.brief()));
+            }
+            (Verdict::Ok(f), Verdict::Ok(g)) => {
+                if f.hash != g.hash {
+                    fail("hash_differs", format!("fresh root {} / after history {}", f.hash, g.hash));
+                } else if f.kernel != g.kernel {
+                    fail("kernel_differs", format!("fresh kernel {:?} / after history {:?}", f.kernel, g.kernel));
+                } else if f.table != g.table {
+                    let (fs, gs) = (&f.table, &g.table);
+                    let eq = self.equal_root_pair(&hist[..hist.len() - 1], si);
+                    let missing: Vec<&String> = fs.difference(&gs).collect();
+                    let surplus: Vec<&String> = gs.difference(&fs).collect();
+                    let what = if !missing.is_empty() && surplus.is_empty() {
+                        if eq.is_some() { "missing_callset_for_equal_mast_root" } else { "cb_table_smaller" }
+                    } else if missing.is_empty() && !surplus.is_empty() {
+                        if eq.is_some() { "extra_callset_for_equal_mast_root" } else { "cb_table_larger" }
+                    } else {
+                        "cb_table_differs"
+                    };
+                    fail(
+                        what,
+                        format!(
+                            "same root {}, cb_table roots fresh={} after={} missing={missing:?} extra={surplus:?}{}; exec fresh={} after={}",
+                            &f.hash[..18],
+                            fs.len(),
+                            gs.len(),
+                            eq.map(|(a, b)| format!(" ({a} and {b} have the same MAST root but different callsets)")).unwrap_or_default(),
+                            brief_outcome(&f.outcome),
+                            brief_outcome(&g.outcome)
+                        ),
+                    );
+                } else if f.outcome != g.outcome {
+                    fail(
+                        "outcome_differs",
+                        format!("identical program, exec fresh={} after={}", brief_outcome(&f.outcome), brief_outcome(&g.outcome)),
+                    );
+                }
+            }
+        }
+        rep.fails = fails;
+        rep.fails.extend(extra);
+        rep
+    }
+
+    /// checks on the reference verdicts themselves (fresh assembler per configuration)
+    fn check_fresh(&self) -> Vec<Fail> {
+        let mut out = vec![];
+        for (ci, cfg) in self.configs.iter().enumerate() {
+            for (si, s) in self.u.sources.iter().enumerate() {
+                let v = &self.fresh[ci][si];
+                let hist = [si];
+                let case = self.case_json(ci, &hist);
+                let expect_ok = s.valid && (!s.needs_kernel || cfg.kernel);
+                match v {
+                    Verdict::Panic(p) => out.push(Fail {
+                        signature: json!({"part": "S", "kind": "panic", "when": "fresh", "source": s.name, "panic": panic_file(p)}),
+                        summary: format!("[{}] fresh compile of {} panicked: {}", cfg.tag(), s.name, guard::short_panic(p)),
+                        case,
+                    }),
+                    Verdict::Err(var, m) => {
+                        if expect_ok {
+                            out.push(Fail {
+                                signature: json!({"part": "S", "kind": "valid_source_rejected", "source": s.name}),
+                                summary: format!("[{}] {} is a valid program but a fresh assembler rejects it: {var}: {m}", cfg.tag(), s.name),
+                                case,
+                            });
+                        }
+                    }
+                    Verdict::Ok(c) => {
+                        if !expect_ok {
+                            out.push(Fail {
+                                signature: json!({"part": "S", "kind": "invalid_source_accepted", "source": s.name}),
+                                summary: format!("[{}] {} is invalid but a fresh assembler accepts it ({})", cfg.tag(), s.name, v.brief()),
+                                case,
+                            });
+                        } else {
+                            self.closure_fails(ci, &hist, c, "fresh", &mut out);
+                        }
+                    }
+                }
+            }
+        }
+        // library order and debug mode must not change the program
+        let cmp = |a: usize, b: usize, what: &str, out: &mut Vec<Fail>| {
+            for (si, s) in self.u.sources.iter().enumerate() {
+                let (va, vb) = (&self.fresh[a][si], &self.fresh[b][si]);
+                let same = match (va, vb) {
+                    (Verdict::Ok(x), Verdict::Ok(y)) => {
+                        x.hash == y.hash
+                            && x.kernel == y.kernel
+                            && x.table == y.table
+                            && x.outcome == y.outcome
+                    }
+                    (Verdict::Err(x, _), Verdict::Err(y, _)) => x == y,
+                    (Verdict::Panic(_), _) | (_, Verdict::Panic(_)) => true, // reported above
+                    _ => false,
+                };
+                if !same {
+                    out.push(Fail {
+                        signature: json!({"part": "S", "kind": what, "source": s.name}),
+                        summary: format!(
+                            "{} : [{}] {} vs [{}] {}",
+                            s.name,
+                            self.configs[a].tag(),
+                            va.brief(),
+                            self.configs[b].tag(),
+                            vb.brief()
+                        ),
+                        case: json!({"part": "S-cross", "what": what, "source": s.name, "text": s.text,
+                                     "config_a": self.configs[a].json(), "config_b": self.configs[b].json()}),
+                    });
+                }
+            }
+        };
+        for (a, ca) in self.configs.iter().enumerate() {
+            for (b, cb) in self.configs.iter().enumerate() {
+                if ca.kernel == cb.kernel && ca.debug == cb.debug && ca.order == 0 && cb.order == 1 {
+                    cmp(a, b, "library_order_changes_program", &mut out);
+                }
+                if ca.kernel == cb.kernel && ca.order == cb.order && !ca.debug && cb.debug {
+                    cmp(a, b, "debug_mode_changes_program", &mut out);
+                }
+            }
+        }
+        // direct path vs re-export
+        for (ci, cfg) in self.configs.iter().enumerate() {
+            for &(a, b) in &self.u.pairs {
+                if let (Verdict::Ok(x), Verdict::Ok(y)) = (&self.fresh[ci][a], &self.fresh[ci][b]) {
+                    if x.hash != y.hash || x.outcome != y.outcome {
+                        out.push(Fail {
+                            signature: json!({"part": "S", "kind": "reexport_changes_program", "source": self.u.sources[b].name}),
+                            summary: format!(
+                                "[{}] {} -> {} but {} -> {}",
+                                cfg.tag(),
+                                self.u.sources[a].name,
+                                self.fresh[ci][a].brief(),
+                                self.u.sources[b].name,
+                                self.fresh[ci][b].brief()
+                            ),
+                            case: json!({"part": "S-pair", "config": cfg.json(), "a": self.u.sources[a].name, "b": self.u.sources[b].name}),
+                        });
+                    }
+                }
+            }
+        }
+        out
+    }
+
+    fn unexplained(&self, fails: &[Fail]) -> bool {
+        fails.iter().any(|f| !self.known.iter().any(|k| k.status == "known" && sig_matches(&k.signature, &f.signature)))
+    }
+}
+
+/// all histories of length 1..=max_len over `n` sources, shortest first, lexicographic
+fn histories(n: usize, max_len: usize) -> Vec<Vec<usize>> {
+    let alphabet: Vec<usize> = (0..n).collect();
+    mcx::space::sequences(&alphabet, 1, max_len)
+}
+
+// ------------------------------------------------------------------------------------------------
+// the same machine as a stateright model
+// ------------------------------------------------------------------------------------------------
+
+mod sr {
+    use super::Machine;
+    use stateright::{Model, Property};
+
+    pub struct HistoryModel(pub Machine);
+
+    impl Model for HistoryModel {
+        /// (configuration index, history of source indices)
+        type State = (u8, Vec<u8>);
+        type Action = u8;
+
+        fn init_states(&self) -> Vec<Self::State> {
+            (0..self.0.configs.len()).map(|c| (c as u8, vec![])).collect()
+        }
+
+        fn actions(&self, state: &Self::State, actions: &mut Vec<Self::Action>) {
+            if state.1.len() < self.0.max_len {
+                actions.extend(0..self.0.u.sources.len() as u8);
+            }
+        }
+
+        fn next_state(&self, last: &Self::State, action: Self::Action) -> Option<Self::State> {
+            let mut h = last.1.clone();
+            h.push(action);
+            Some((last.0, h))
+        }
+
+        fn properties(&self) -> Vec<Property<Self>> {
+            vec![Property::always("oracle", |m: &HistoryModel, s: &(u8, Vec<u8>)| {
+                let hist: Vec<usize> = s.1.iter().map(|&x| x as usize).collect();
+                let rep = m.0.check_node(s.0 as usize, &hist, true);
+                !m.0.unexplained(&rep.fails)
+            })]
+        }
+    }
+}
+
+// ================================================================================================
+// part E: invalid programs over a stated grid
+// ================================================================================================
+
+#[derive(Clone, Copy, Debug, PartialEq, Eq)]
+enum Expect {
+    Ok,
+    Err,
+    /// the documentation does not say: only "no panic" is required
+    NoPanic,
+}
+
+#[derive(Clone, Debug)]
+enum Target {
+    /// `src` is a program, assembled by an assembler with the stated kernel (if any)
+    Program { kernel: Option<String> },
+    /// `src` is a kernel module, assembled by `with_kernel`
+    Kernel,
+    /// `src` is a library module at path `lx::m` (exporting `f`); `use.lx::m begin exec.m::f end` is compiled
+    Library { kernel: Option<String> },
+    /// `src` is a kernel module which imports library module `lx::m` with source `module`
+    KernelWithLibrary { module: String },
+}
+
+#[derive(Clone, Debug)]
+struct ECase {
+    class: &'static str,
+    family: String,
+    point: String,
+    target: Target,
+    src: String,
+    expect: Expect,
+}
+
+const E_KERNEL: &str = "export.k1 push.5 add end";
+
+fn e_cases(u: &Universe) -> Vec<ECase> {
+    let mut v: Vec<ECase> = vec![];
+    let prog = |instr: &str| format!("begin {instr} end");
+    let p = P as i128;
+    let u32max = (1i128 << 32) - 1;
+
+    // ---- parameter ranges: {lo-1, lo, hi, hi+1}
+    {
+    let mut range = |class: &'static str, family: &str, lo: i128, hi: i128, render: &dyn Fn(&str) -> String| {
+        for (label, val, expect) in [
+            ("lowest-1", lo - 1, Expect::Err),
+            ("lowest", lo, Expect::Ok),
+            ("highest", hi, Expect::Ok),
+            ("highest+1", hi + 1, Expect::Err),
+        ] {
+            v.push(ECase {
+                class,
+                family: family.to_string(),
+                point: label.to_string(),
+                target: Target::Program { kernel: None },
+                src: render(&val.to_string()),
+                expect,
+            });
+        }
+    };
+    for (f, lo, hi) in [
+        ("dup", 0, 15),
+        ("dupw", 0, 3),
+        ("swap", 1, 15),
+        ("swapw", 1, 3),
+        ("movup", 2, 15),
+        ("movdn", 2, 15),
+        ("movupw", 2, 3),
+        ("movdnw", 2, 3),
+    ] {
+        range("stack_index", f, lo, hi, &|x| prog(&format!("{f}.{x}")));
+    }
+    for f in ["add", "sub", "mul", "eq", "neq", "exp", "push"] {
+        range("felt_immediate", f, 0, p - 1, &|x| prog(&format!("push.1 {f}.{x}")));
+    }
+    range("felt_immediate", "div", 1, p - 1, &|x| prog(&format!("push.1 div.{x}")));
+    range("exp_bits", "exp.u", 0, 64, &|x| prog(&format!("push.2 push.3 exp.u{x}")));
+    for f in [
+        "u32wrapping_add",
+        "u32overflowing_add",
+        "u32wrapping_sub",
+        "u32overflowing_sub",
+        "u32wrapping_mul",
+        "u32overflowing_mul",
+    ] {
+        range("u32_immediate", f, 0, u32max, &|x| prog(&format!("push.1 {f}.{x}")));
+    }
+    for f in ["u32div", "u32mod", "u32divmod"] {
+        range("u32_immediate", f, 1, u32max, &|x| prog(&format!("push.1 {f}.{x}")));
+    }
+    for f in ["u32shl", "u32shr", "u32rotl", "u32rotr"] {
+        range("u32_shift", f, 0, 31, &|x| prog(&format!("push.1 {f}.{x}")));
+    }
+    range("advice_count", "adv_push", 1, 16, &|x| prog(&format!("adv_push.{x}")));
+    for f in ["mem_load", "mem_loadw", "mem_store", "mem_storew"] {
+        range("memory_address", f, 0, u32max, &|x| prog(&format!("padw push.1 {f}.{x}")));
+    }
+    for f in ["assert", "assertz", "assert_eq", "assert_eqw", "u32assert", "u32assert2", "u32assertw"] {
+        range("error_code", f, 0, u32max, &|x| prog(&format!("padw padw {f}.err={x}")));
+    }
+    for f in ["emit", "trace"] {
+        range("event_id", f, 0, u32max, &|x| prog(&format!("push.1 {f}.{x}")));
+    }
+    range("debug_param", "debug.stack", 1, 255, &|x| prog(&format!("push.1 debug.stack.{x}")));
+    range("debug_param", "debug.local", 0, 65535, &|x| format!("proc.x.2 push.1 debug.local.{x} end begin exec.x end"));
+    range("debug_param", "debug.local.n.n", 0, 65535, &|x| format!("proc.x.2 push.1 debug.local.{x}.{x} end begin exec.x end"));
+    range("injector_param", "adv.insert_hdword", 0, 255, &|x| prog(&format!("push.1 adv.insert_hdword.{x}")));
+    }
+
+    let mut one = |class: &'static str, family: &str, point: &str, target: Target, src: String, expect: Expect| {
+        v.push(ECase { class, family: family.to_string(), point: point.to_string(), target, src, expect });
+    };
+    let program = || Target::Program { kernel: None };
+    let kprogram = || Target::Program { kernel: Some(E_KERNEL.to_string()) };
+
+    // number of locals: "at most 2^16" (code_organization.md) vs a 16-bit counter: 65536 may go either way
+    let locals = |x: &str| format!("proc.x.{x} push.1 end begin exec.x end");
+    one("num_locals", "proc", "lowest-1", program(), locals("-1"), Expect::Err);
+    one("num_locals", "proc", "lowest", program(), locals("0"), Expect::Ok);
+    one("num_locals", "proc", "2^16-1", program(), locals("65535"), Expect::Ok);
+    one("num_locals", "proc", "2^16 (documentation ambiguous)", program(), locals("65536"), Expect::NoPanic);
+    one("num_locals", "proc", "2^16+1", program(), locals("65537"), Expect::Err);
+    one("num_locals", "proc", "not a number", program(), locals("two"), Expect::Err);
+    // debug.mem: addresses are u32; interval end >= start
+    one("debug_param", "debug.mem", "n=1", program(), prog("push.1 debug.mem.1"), Expect::Ok);
+    one("debug_param", "debug.mem", "n=2^32-1", program(), prog("push.1 debug.mem.4294967295"), Expect::Ok);
+    one("debug_param", "debug.mem", "n=2^32", program(), prog("push.1 debug.mem.4294967296"), Expect::Err);
+    one("debug_param", "debug.mem", "n=-1", program(), prog("push.1 debug.mem.-1"), Expect::Err);
+    one("debug_param", "debug.mem", "n=0 (address 0; range of n not documented)", program(), prog("push.1 debug.mem.0"), Expect::NoPanic);
+    one("debug_param", "debug.mem.n.m", "m=n", program(), prog("push.1 debug.mem.7.7"), Expect::Ok);
+    one("debug_param", "debug.mem.n.m", "m=n+1", program(), prog("push.1 debug.mem.7.8"), Expect::Ok);
+    one("debug_param", "debug.mem.n.m", "m=n-1", program(), prog("push.1 debug.mem.7.6"), Expect::Err);
+    one("debug_param", "debug.mem.n.m", "m=2^32", program(), prog("push.1 debug.mem.7.4294967296"), Expect::Err);
+    one("debug_param", "debug.local.n.m", "m=n+1", program(), "proc.x.2 push.1 debug.local.0.1 end begin exec.x end".into(), Expect::Ok);
+    one("debug_param", "debug.local.n.m", "m=n-1", program(), "proc.x.2 push.1 debug.local.1.0 end begin exec.x end".into(), Expect::Err);
+    one("debug_param", "debug", "no target", program(), prog("push.1 debug"), Expect::Err);
+    one("debug_param", "debug", "unknown target", program(), prog("push.1 debug.regs"), Expect::Err);
+    // advice injector offsets: the key word must lie within the top 16 elements (not documented as a range)
+    for f in ["adv.push_mapval", "adv.push_mapvaln"] {
+        one("injector_param", f, "lowest-1", program(), prog(&format!("push.1 {f}.-1")), Expect::Err);
+        one("injector_param", f, "lowest", program(), prog(&format!("push.1 {f}.0")), Expect::Ok);
+        one("injector_param", f, "12", program(), prog(&format!("push.1 {f}.12")), Expect::Ok);
+        one("injector_param", f, "13 (undocumented bound)", program(), prog(&format!("push.1 {f}.13")), Expect::NoPanic);
+        one("injector_param", f, "256", program(), prog(&format!("push.1 {f}.256")), Expect::NoPanic);
+    }
+    one("injector_param", "adv.push_sig", "known kind", program(), prog("push.1 adv.push_sig.rpo_falcon512"), Expect::Ok);
+    one("injector_param", "adv.push_sig", "unknown kind", program(), prog("push.1 adv.push_sig.ecdsa"), Expect::Err);
+    one("injector_param", "adv", "unknown injector", program(), prog("push.1 adv.push_nothing"), Expect::Err);
+    // repeat: count > 0 (documented); no documented upper bound
+    one("repeat_count", "repeat", "lowest-1 (0)", program(), "begin repeat.0 push.1 end end".into(), Expect::Err);
+    one("repeat_count", "repeat", "lowest (1)", program(), "begin repeat.1 push.1 end end".into(), Expect::Ok);
+    one("repeat_count", "repeat", "1000", program(), "begin repeat.1000 push.1 drop end end".into(), Expect::Ok);
+    one("repeat_count", "repeat", "-1", program(), "begin repeat.-1 push.1 end end".into(), Expect::Err);
+    one("repeat_count", "repeat", "2^32 (no documented upper bound)", program(), "begin repeat.4294967296 push.1 end end".into(), Expect::NoPanic);
+    one("repeat_count", "repeat", "missing", program(), "begin repeat push.1 end end".into(), Expect::Err);
+    // push: 1..=16 values, each a field element, decimal or hex
+    let vals = |k: usize| (0..k).map(|i| (i + 2).to_string()).collect::<Vec<_>>().join(".");
+    one("push_arity", "push", "0 values", program(), prog("push"), Expect::Err);
+    one("push_arity", "push", "1 value", program(), prog("push.7"), Expect::Ok);
+    one("push_arity", "push", "16 values", program(), prog(&format!("push.{}", vals(16))), Expect::Ok);
+    one("push_arity", "push", "17 values", program(), prog(&format!("push.{}", vals(17))), Expect::Err);
+    one("push_value", "push", "list with p-1", program(), prog(&format!("push.1.{}", p - 1)), Expect::Ok);
+    one("push_value", "push", "list with p", program(), prog(&format!("push.1.{p}")), Expect::Err);
+    one("push_value", "push", "list with -1", program(), prog("push.1.-1"), Expect::Err);
+    one("push_value", "push", "non-numeric", program(), prog("push.abc"), Expect::Err);
+    one("push_value", "push", "list with non-numeric", program(), prog("push.1.x"), Expect::Err);
+    one("push_value", "push", "empty value", program(), prog("push.1..2"), Expect::Err);
+    one("push_value", "push", "undefined constant", program(), prog("push.NOPE"), Expect::Err);
+    one("push_value", "push", "hex p-1", program(), prog("push.0xffffffff00000000"), Expect::Ok);
+    one("push_value", "push", "hex p", program(), prog("push.0xffffffff00000001"), Expect::Err);
+    one("push_value", "push", "hex short", program(), prog("push.0x7b"), Expect::Ok);
+    one("push_value", "push", "hex odd digits", program(), prog("push.0x7"), Expect::Err);
+    one("push_value", "push", "hex 18 digits", program(), prog("push.0x010000000000000000"), Expect::Err);
+    one("push_value", "push", "hex not hex", program(), prog("push.0xzz"), Expect::Err);
+    one("push_value", "push", "hex empty", program(), prog("push.0x"), Expect::Err);
+    one(
+        "push_value",
+        "push",
+        "hex word",
+        program(),
+        prog("push.0x341200000000000078560000000000001290000000000000cdab000000000000"),
+        Expect::Ok,
+    );
+    one(
+        "push_value",
+        "push",
+        "hex word with element p (little endian)",
+        program(),
+        prog("push.0x01000000ffffffff78560000000000001290000000000000cdab000000000000"),
+        Expect::Err,
+    );
+    one(
+        "push_value",
+        "push",
+        "hex word 62 digits",
+        program(),
+        prog("push.0x3412000000000000785600000000000012900000000000cdab000000000000"),
+        Expect::Err,
+    );
+    // instructions without parameters must refuse one
+    for f in ["drop", "swapdw", "caller", "dynexec", "hperm", "mem_stream", "adv_loadw", "clk"] {
+        one("extra_param", f, "one extra", program(), prog(&format!("{f}.1")), Expect::Err);
+    }
+    for f in ["movup", "movdn", "movupw", "movdnw", "adv_push", "locaddr", "loc_load", "loc_store", "emit", "trace", "exec", "call", "syscall", "procref"] {
+        one("missing_param", f, "none", program(), format!("proc.x.1 {f} end begin exec.x end"), Expect::Err);
+    }
+    one("unknown_instruction", "-", "unknown op", program(), prog("frobnicate"), Expect::Err);
+
+    // ---- local index x number of locals
+    for f in ["loc_load", "loc_loadw", "loc_store", "loc_storew", "locaddr"] {
+        for n in [0u32, 1, 2, 65535] {
+            let mut idxs: BTreeSet<i64> = [0i64, n as i64 - 1, n as i64, 65535, 65536].into_iter().collect();
+            idxs.remove(&-1);
+            for idx in idxs {
+                let expect = if idx < n as i64 { Expect::Ok } else { Expect::Err };
+                one(
+                    "local_index",
+                    f,
+                    &format!("locals={n}"),
+                    Target::Program { kernel: None },
+                    format!("proc.x.{n} padw {f}.{idx} end begin exec.x end"),
+                    expect,
+                );
+                if n == 0 {
+                    // `begin` blocks have no locals at all ("available only in procedure context")
+                    one("local_index", f, "locals=0(begin)", program(), prog(&format!("padw {f}.{idx}")), Expect::Err);
+                }
+            }
+        }
+    }
+
+    // ---- call / syscall / caller, in and out of kernels
+    let root = hex(&u.foo_root);
+    one("kernel_rules", "call", "local call in kernel", Target::Kernel, "proc.h push.1 end export.k call.h end".into(), Expect::Err);
+    one("kernel_rules", "call", "call by root in kernel", Target::Kernel, format!("export.k call.{root} end"), Expect::Err);
+    one("kernel_rules", "syscall", "syscall in kernel", Target::Kernel, "export.a push.1 end export.k syscall.a end".into(), Expect::Err);
+    one("kernel_rules", "caller", "caller in kernel export", Target::Kernel, "export.k caller end".into(), Expect::Ok);
+    one("kernel_rules", "caller", "caller in kernel internal proc", Target::Kernel, "proc.h caller end export.k exec.h end".into(), Expect::Ok);
+    one("kernel_rules", "exec", "exec in kernel", Target::Kernel, "proc.h push.1 end export.k exec.h end".into(), Expect::Ok);
+    one("kernel_rules", "dyncall", "dyncall in kernel (not documented)", Target::Kernel, "export.k dyncall end".into(), Expect::NoPanic);
+    one("kernel_rules", "dynexec", "dynexec in kernel (not documented)", Target::Kernel, "export.k dynexec end".into(), Expect::NoPanic);
+    one("kernel_rules", "kernel", "kernel without exports (not documented)", Target::Kernel, "proc.h push.1 end".into(), Expect::NoPanic);
+    one("kernel_rules", "kernel", "kernel with a begin block", Target::Kernel, "export.k push.1 end begin push.1 end".into(), Expect::Err);
+    one(
+        "kernel_rules",
+        "call",
+        "kernel execs a library procedure containing call",
+        Target::KernelWithLibrary { module: "proc.h push.1 end export.f call.h end".into() },
+        "use.lx::m export.k exec.m::f end".into(),
+        Expect::Err,
+    );
+    one(
+        "kernel_rules",
+        "exec",
+        "kernel execs a plain library procedure",
+        Target::KernelWithLibrary { module: "export.f push.1 add end".into() },
+        "use.lx::m export.k exec.m::f end".into(),
+        Expect::Ok,
+    );
+    one("kernel_rules", "caller", "caller in program body", program(), prog("caller"), Expect::Err);
+    one("kernel_rules", "caller", "caller in program procedure", program(), "proc.c caller end begin exec.c end".into(), Expect::Err);
+    one("kernel_rules", "caller", "caller in program (assembler has a kernel)", kprogram(), prog("caller"), Expect::Err);
+    one("kernel_rules", "caller", "caller in library module", Target::Library { kernel: None }, "export.f caller end".into(), Expect::Err);
+    one("kernel_rules", "caller", "caller in library module (assembler has a kernel)", Target::Library { kernel: Some(E_KERNEL.into()) }, "export.f caller end".into(), Expect::Err);
+    one("kernel_rules", "syscall", "syscall without kernel", program(), prog("syscall.k1"), Expect::Err);
+    one("kernel_rules", "syscall", "syscall to kernel procedure", kprogram(), prog("syscall.k1"), Expect::Ok);
+    one("kernel_rules", "syscall", "syscall to unknown kernel procedure", kprogram(), prog("syscall.k9"), Expect::Err);
+    one("kernel_rules", "syscall", "syscall to local procedure", kprogram(), "proc.k9 push.1 end begin syscall.k9 end".into(), Expect::Err);
+    one("kernel_rules", "syscall", "syscall with module path", kprogram(), prog("syscall.m::k1"), Expect::Err);
+    one("kernel_rules", "syscall", "syscall with MAST root", kprogram(), prog(&format!("syscall.{root}")), Expect::Err);
+    one("kernel_rules", "syscall", "syscall in library module", Target::Library { kernel: Some(E_KERNEL.into()) }, "export.f syscall.k1 end".into(), Expect::Ok);
+    one("kernel_rules", "syscall", "syscall in library module without kernel", Target::Library { kernel: None }, "export.f syscall.k1 end".into(), Expect::Err);
+    one("kernel_rules", "call", "call in program", program(), "proc.h push.1 end begin call.h end".into(), Expect::Ok);
+    one("kernel_rules", "call", "call in library module", Target::Library { kernel: None }, "proc.h push.1 end export.f call.h end".into(), Expect::Ok);
+    one("kernel_rules", "exec", "exec with MAST root", program(), prog(&format!("exec.{root}")), Expect::Err);
+    one("kernel_rules", "call", "call with short MAST root", program(), prog("call.0x1234"), Expect::Err);
+    one("kernel_rules", "call", "call with unknown MAST root", program(), prog(&format!("call.{root}")), Expect::Err);
+
+    // ---- export in an executable, undefined / duplicate procedures
+    one("export_in_executable", "export", "exported procedure", program(), "export.e push.1 end begin push.1 end".into(), Expect::Err);
+    one("export_in_executable", "export", "export after proc", program(), "proc.a push.1 end export.e push.1 end begin exec.a end".into(), Expect::Err);
+    one("export_in_executable", "export", "re-export", program(), "use.lx::m export.m::f begin push.1 end".into(), Expect::Err);
+    for f in ["exec", "call", "procref"] {
+        one("undefined_procedure", f, "undefined local", program(), prog(&format!("{f}.nope")), Expect::Err);
+        one("undefined_procedure", f, "defined later", program(), format!("proc.a {f}.b end proc.b push.1 end begin exec.a end"), Expect::Err);
+        one("undefined_procedure", f, "itself", program(), format!("proc.a {f}.a end begin exec.a end"), Expect::Err);
+        one("undefined_procedure", f, "module not imported", program(), prog(&format!("{f}.m::f")), Expect::Err);
+        one("undefined_procedure", f, "module not in any library", program(), format!("use.lx::zz begin {f}.zz::f end"), Expect::Err);
+        one(
+            "undefined_procedure",
+            f,
+            "defined earlier in the same module (positive control)",
+            Target::Library { kernel: None },
+            format!("export.f push.1 end export.g {f}.f end"),
+            Expect::Ok,
+        );
+    }
+    one("undefined_procedure", "exec", "name missing from library module", Target::Library { kernel: None }, "export.g push.1 end".into(), Expect::Err);
+    one("undefined_procedure", "exec", "internal procedure of library module", Target::Library { kernel: None }, "export.g push.1 end proc.f push.2 end".into(), Expect::Err);
+    one("duplicate_procedure", "proc", "two procs, one name", program(), "proc.a push.1 end proc.a push.2 end begin exec.a end".into(), Expect::Err);
+    one("duplicate_procedure", "proc", "identical twins", program(), "proc.a push.1 end proc.a push.1 end begin exec.a end".into(), Expect::Err);
+    one("duplicate_procedure", "export", "two exports, one name", Target::Library { kernel: None }, "export.f push.1 end export.f push.2 end".into(), Expect::Err);
+    one("duplicate_procedure", "export", "proc and export, one name", Target::Library { kernel: None }, "proc.f push.1 end export.f push.2 end".into(), Expect::Err);
+    one("duplicate_procedure", "export", "two kernel exports, one name", Target::Kernel, "export.k push.1 end export.k push.2 end".into(), Expect::Err);
+    one("program_shape", "begin", "no begin", program(), "proc.a push.1 end".into(), Expect::Err);
+    one("program_shape", "begin", "two begins", program(), "begin push.1 end begin push.2 end".into(), Expect::Err);
+    one("program_shape", "begin", "unterminated", program(), "begin push.1".into(), Expect::Err);
+    one("program_shape", "begin", "proc after begin", program(), "begin push.1 end proc.a push.1 end".into(), Expect::Err);
+    one("program_shape", "begin", "empty source", program(), "".into(), Expect::Err);
+    one("program_shape", "begin", "empty body (not documented)", program(), "begin end".into(), Expect::NoPanic);
+    one("program_shape", "if", "if without condition", program(), "begin push.1 if push.2 end end".into(), Expect::Err);
+    one("program_shape", "if", "else without if", program(), "begin push.1 else push.2 end end".into(), Expect::Err);
+    one("program_shape", "use", "use inside body", program(), "begin use.lx::m push.1 end".into(), Expect::Err);
+
+    // ---- decorators (emit / trace / debug / advice injectors) where no operation precedes them in the span
+    for f in ["emit.1", "trace.1", "adv.push_mapval", "adv.insert_hperm", "debug.stack", "debug.mem", "debug.local", "breakpoint"] {
+        // bodies consisting only of decorators: accepted or rejected, but never a panic
+        one("decorator_only_span", f, "whole body", program(), prog(f), Expect::NoPanic);
+        one("decorator_only_span", f, "whole procedure", program(), format!("proc.h {f} end begin push.1 exec.h end"), Expect::NoPanic);
+        one("decorator_only_span", f, "whole if branch", program(), format!("begin push.1 if.true {f} else push.2 end end"), Expect::NoPanic);
+        one("decorator_only_span", f, "whole else branch", program(), format!("begin push.1 if.true push.2 else {f} end end"), Expect::NoPanic);
+        one("decorator_only_span", f, "whole while body", program(), format!("begin push.0 while.true {f} end end"), Expect::NoPanic);
+        one("decorator_only_span", f, "whole repeat body", program(), format!("begin repeat.2 {f} end end"), Expect::NoPanic);
+        one("decorator_only_span", f, "whole exported library procedure", Target::Library { kernel: None }, format!("export.f {f} end"), Expect::NoPanic);
+        one("decorator_only_span", f, "whole kernel procedure", Target::Kernel, format!("export.k {f} end"), Expect::NoPanic);
+        // a decorator in front of a control-flow block of a body that does contain operations
+        one("decorator_only_span", f, "before exec", program(), format!("proc.h push.1 end begin {f} exec.h end"), Expect::Ok);
+        one("decorator_only_span", f, "before call", program(), format!("proc.h push.1 end begin {f} call.h end"), Expect::Ok);
+        one("decorator_only_span", f, "before if", program(), format!("begin {f} if.true push.1 end end"), Expect::Ok);
+        one("decorator_only_span", f, "before while", program(), format!("begin {f} while.true push.0 end end"), Expect::Ok);
+        one("decorator_only_span", f, "before repeat", program(), format!("begin {f} repeat.2 push.0 end end"), Expect::NoPanic);
+        one("decorator_only_span", f, "between exec and exec", program(), format!("proc.h push.1 end begin exec.h {f} exec.h end"), Expect::Ok);
+        one("decorator_only_span", f, "after the last block", program(), format!("proc.h push.1 end begin exec.h {f} end"), Expect::Ok);
+        one("decorator_only_span", f, "after an operation (control)", program(), format!("begin push.1 {f} end"), Expect::Ok);
+        one("decorator_only_span", f, "after an operation, before exec (control)", program(), format!("proc.h push.1 end begin push.1 {f} exec.h end"), Expect::Ok);
+    }
+
+    // ---- constants: value in [0, p-1], decimal / hex / arithmetic expression over + - * / // ( )
+    let cst = |e: &str| format!("const.A={e} begin push.A end");
+    for (point, e, expect) in [
+        ("lowest", "0".to_string(), Expect::Ok),
+        ("highest", (p - 1).to_string(), Expect::Ok),
+        ("highest+1", p.to_string(), Expect::Err),
+        ("2^64", "18446744073709551616".to_string(), Expect::Err),
+        ("hex", "0x0a".to_string(), Expect::Ok),
+        ("expression", "2*3+(10-4)//2".to_string(), Expect::Ok),
+        ("field division", "6/3".to_string(), Expect::Ok),
+        ("integer division by zero", "6//0".to_string(), Expect::Err),
+        ("field division by zero", "6/0".to_string(), Expect::Err),
+        ("division by zero expression", "6/(3-3)".to_string(), Expect::Err),
+        ("undefined constant in expression", "B+1".to_string(), Expect::Err),
+        ("empty", "".to_string(), Expect::Err),
+        ("dangling operator", "1+".to_string(), Expect::Err),
+        ("leading operator", "*2".to_string(), Expect::Err),
+        ("double operator", "1+*2".to_string(), Expect::Err),
+        ("unmatched )", "1)".to_string(), Expect::Err),
+        ("unmatched (", "(1".to_string(), Expect::Err),
+        ("empty parentheses", "()".to_string(), Expect::Err),
+        ("two values", "(1)(2)".to_string(), Expect::Err),
+        ("negative literal (not documented)", "-1".to_string(), Expect::NoPanic),
+        ("two equal signs", "1=2".to_string(), Expect::Err),
+    ] {
+        one("constant_expression", "const", point, program(), cst(&e), expect);
+    }
+    one("constant_expression", "const", "lower-case name", program(), "const.a=1 begin push.1 end".into(), Expect::Err);
+    one("constant_expression", "const", "declared twice", program(), "const.A=1 const.A=2 begin push.A end".into(), Expect::Err);
+    one("constant_expression", "const", "declared inside body", program(), "begin const.A=1 push.A end".into(), Expect::Err);
+    one("constant_expression", "const", "reference to earlier constant", program(), "const.A=3 const.B=A*2 begin push.B end".into(), Expect::Ok);
+    // constants as parameters keep the parameter's own range
+    one("constant_param", "mem_load", "highest", program(), "const.A=4294967295 begin mem_load.A end".into(), Expect::Ok);
+    one("constant_param", "mem_load", "highest+1", program(), "const.A=4294967296 begin mem_load.A end".into(), Expect::Err);
+    one("constant_param", "assert", "highest", program(), "const.A=4294967295 begin push.1 assert.err=A end".into(), Expect::Ok);
+    one("constant_param", "assert", "highest+1", program(), "const.A=4294967296 begin push.1 assert.err=A end".into(), Expect::Err);
+    one("constant_param", "loc_load", "index = locals", program(), "const.A=1 proc.x.1 loc_load.A end begin exec.x end".into(), Expect::Err);
+    one("constant_param", "loc_load", "index = locals-1", program(), "const.A=0 proc.x.1 loc_load.A end begin exec.x end".into(), Expect::Ok);
+    one("constant_param", "locaddr", "2^16", program(), "const.A=65536 proc.x.1 locaddr.A end begin exec.x end".into(), Expect::Err);
+    one("constant_param", "emit", "highest+1", program(), "const.A=4294967296 begin push.1 emit.A end".into(), Expect::Err);
+    one("constant_param", "push", "undefined", program(), "const.A=1 begin push.B end".into(), Expect::Err);
+    // control-flow keywords
+    for (point, src, expect) in [
+        ("if.true", "begin push.1 if.true push.2 end end", Expect::Ok),
+        ("if.false (not documented)", "begin push.1 if.false push.2 end end", Expect::NoPanic),
+        ("if.1", "begin push.1 if.1 push.2 end end", Expect::Err),
+        ("if.true.true", "begin push.1 if.true.true push.2 end end", Expect::Err),
+        ("while.true", "begin push.0 while.true push.0 end end", Expect::Ok),
+        ("while", "begin push.0 while push.0 end end", Expect::Err),
+        ("while.false", "begin push.0 while.false push.0 end end", Expect::Err),
+        ("end.1", "begin push.0 end.1", Expect::Err),
+        ("begin.1", "begin.1 push.0 end", Expect::Err),
+        ("else.1", "begin push.1 if.true push.2 else.1 push.3 end end", Expect::Err),
+    ] {
+        one("control_flow_keyword", "-", point, program(), src.into(), expect);
+    }
+
+    // ---- zero-immediate divisions
+    for f in ["div", "u32div", "u32mod", "u32divmod"] {
+        one("zero_division", f, "immediate 0", program(), prog(&format!("push.8 {f}.0")), Expect::Err);
+        one("zero_division", f, "immediate 00", program(), prog(&format!("push.8 {f}.00")), Expect::Err);
+        one("zero_division", f, "immediate 1", program(), prog(&format!("push.8 {f}.1")), Expect::Ok);
+        one("zero_division", f, "no immediate", program(), prog(&format!("push.8 push.2 {f}")), Expect::Ok);
+    }
+    v
+}
+
+#[derive(Clone, Debug)]
+enum EObs {
+    Ok,
+    Err(String, String),
+    Panic(String),
+}
+
+fn lx(module_src: &str) -> Result<MaslLibrary, String> {
+    let ast = ModuleAst::parse(module_src).map_err(|e| format!("{e}"))?;
+    Ok(library("lx", vec![Module::new(LibraryPath::new("lx::m").expect("path"), ast)]))
+}
+
+fn e_run(c: &ECase, debug: bool) -> EObs {
+    let r = guard::catch(|| -> Result<(), (String, String)> {
+        let ev = |e: assembly::AssemblyError| (err_variant(&format!("{e:?}")), format!("{e}"));
+        let base = Assembler::default().with_debug_mode(debug);
+        match &c.target {
+            Target::Program { kernel } => {
+                let a = match kernel {
+                    Some(k) => base.with_kernel(k).expect("part E kernel must assemble"),
+                    None => base,
+                };
+                a.compile(&c.src).map(|_| ()).map_err(ev)
+            }
+            Target::Kernel => base.with_kernel(&c.src).map(|_| ()).map_err(ev),
+            Target::Library { kernel } => {
+                // a module which does not parse is an Err observation as well
+                let lib = lx(&c.src).map_err(|m| ("ParsingError".to_string(), m))?;
+                let a = base.with_library(&lib).map_err(ev)?;
+                let a = match kernel {
+                    Some(k) => a.with_kernel(k).expect("part E kernel must assemble"),
+                    None => a,
+                };
+                a.compile("use.lx::m begin exec.m::f end").map(|_| ()).map_err(ev)
+            }
+            Target::KernelWithLibrary { module } => {
+                let lib = lx(module).map_err(|m| ("ParsingError".to_string(), m))?;
+                let a = base.with_library(&lib).map_err(ev)?;
+                a.with_kernel(&c.src).map(|_| ()).map_err(ev)
+            }
+        }
+    });
+    match r {
+        Err(p) => EObs::Panic(p),
+        Ok(Ok(())) => EObs::Ok,
+        Ok(Err((v, m))) => EObs::Err(v, m),
+    }
+}
+
+fn e_case_json(c: &ECase, debug: bool) -> Value {
+    let (target, kernel, module) = match &c.target {
+        Target::Program { kernel } => ("program", kernel.clone(), None),
+        Target::Kernel => ("kernel", None, None),
+        Target::Library { kernel } => ("library", kernel.clone(), None),
+        Target::KernelWithLibrary { module } => ("kernel_with_library", None, Some(module.clone())),
+    };
+    json!({
+        "part": "E", "class": c.class, "family": c.family, "point": c.point, "target": target,
+        "kernel": kernel, "module": module, "src": c.src, "debug": debug,
+        "expect": match c.expect { Expect::Ok => "ok", Expect::Err => "err", Expect::NoPanic => "no_panic" },
+    })
+}
+
+fn e_case_from_json(v: &Value) -> (ECase, bool) {
+    let s = |k: &str| v[k].as_str().map(String::from);
+    let target = match v["target"].as_str().expect("target") {
+        "program" => Target::Program { kernel: s("kernel") },
+        "kernel" => Target::Kernel,
+        "library" => Target::Library { kernel: s("kernel") },
+        _ => Target::KernelWithLibrary { module: s("module").expect("module") },
+    };
+    let class: &'static str = Box::leak(s("class").expect("class").into_boxed_str());
+    (
+        ECase {
+            class,
+            family: s("family").expect("family"),
+            point: s("point").expect("point"),
+            target,
+            src: s("src").expect("src"),
+            expect: match v["expect"].as_str() {
+                Some("ok") => Expect::Ok,
+                Some("err") => Expect::Err,
+                _ => Expect::NoPanic,
+            },
+        },
+        v["debug"].as_bool().unwrap_or(false),
+    )
+}
+
+/// oracle of part E; returns the failure (if any) and the outcome class
+fn e_check(c: &ECase, debug: bool, obs: &EObs) -> Option<Fail> {
+    let mk = |kind: &str, wher: &str, detail: String| Fail {
+        signature: json!({"part": "E", "kind": kind, "class": c.class, "family": c.family, "point": c.point, "where": wher}),
+        summary: format!("{} [{}{}] expected {:?}: {detail}", c.src, match &c.target {
+            Target::Program { kernel: None } => "program",
+            Target::Program { .. } => "program+kernel",
+            Target::Kernel => "kernel module",
+            Target::Library { .. } => "library module lx::m",
+            Target::KernelWithLibrary { .. } => "kernel module using lx::m",
+        }, if debug { ", debug mode" } else { "" }, c.expect),
+        case: e_case_json(c, debug),
+    };
+    match (obs, c.expect) {
+        (EObs::Panic(p), _) => {
+            Some(mk("panic", &panic_file(p), format!("panicked: {}", guard::short_panic(p))))
+        }
+        (EObs::Ok, Expect::Err) => Some(mk("accepted_invalid", "-", "assembled successfully".into())),
+        (EObs::Err(v, m), Expect::Ok) => Some(mk("rejected_valid", "-", format!("rejected: {v}: {m}"))),
+        _ => None,
+    }
+}
+
+// ================================================================================================
+// entry point
+// ================================================================================================
+
+pub fn run(ctx: &Ctx, replay: Option<&Value>) -> i32 {
+    let known = load_known(&ctx.root, &ctx.prop);
+    if let Some(case) = replay {
+        return run_replay(ctx, case, known);
+    }
+    let max_len = ctx.tier.pick(2usize, 3usize);
+    let u = build_universe();
+    let m = Machine::new(u, max_len, known);
+    let n = m.u.sources.len();
+    let pool: Vec<&'static str> = m.u.sources.iter().map(|s| s.name).collect();
+
+    // ---- part S: references
+    for (path, src, e) in &m.u.root_failures {
+        ctx.fail(
+            json!({"part": "S", "kind": "valid_source_rejected", "source": format!("exec of {path}")}),
+            format!("a fresh assembler (L1,L2; no kernel) refuses the valid program `{src}`: {e}"),
+            json!({"part": "S-root", "path": path, "src": src}),
+        );
+    }
+    let fresh_fails = m.check_fresh();
+    for f in &fresh_fails {
+        ctx.fail(f.signature.clone(), f.summary.clone(), f.case.clone());
+    }
+    let mut fresh_hist: BTreeMap<String, u64> = BTreeMap::new();
+    for per in &m.fresh {
+        for v in per {
+            *fresh_hist.entry(v.kind()).or_insert(0) += 1;
+        }
+    }
+
+    // ---- part S: all histories, all configurations
+    let hists = histories(n, max_len);
+    let nodes: Vec<(usize, &Vec<usize>)> =
+        (0..m.configs.len()).flat_map(|ci| hists.iter().map(move |h| (ci, h))).collect();
+    // determinism of the machinery: the first 50 nodes are evaluated twice
+    for &(ci, h) in nodes.iter().take(50) {
+        let (a, b) = (m.check_node(ci, h, true), m.check_node(ci, h, true));
+        assert!(
+            a.class == b.class && a.fails.len() == b.fails.len(),
+            "machinery is not deterministic on config {ci} history {h:?}"
+        );
+    }
+    let reports: Vec<NodeReport> = nodes.par_iter().map(|&(ci, h)| m.check_node(ci, h, true)).collect();
+    let mut class_hist: BTreeMap<String, u64> = BTreeMap::new();
+    let mut cache_dependent = 0u64;
+    let mut failing_nodes: BTreeSet<(usize, Vec<usize>)> = BTreeSet::new();
+    let mut unexplained_nodes: BTreeSet<(usize, Vec<usize>)> = BTreeSet::new();
+    for (rep, &(ci, h)) in reports.iter().zip(nodes.iter()) {
+        *class_hist.entry(rep.class.clone()).or_insert(0) += 1;
+        cache_dependent += rep.cache_dependent as u64;
+        if !rep.fails.is_empty() {
+            failing_nodes.insert((ci, h.clone()));
+            if m.unexplained(&rep.fails) {
+                unexplained_nodes.insert((ci, h.clone()));
+            }
+        }
+        for f in &rep.fails {
+            ctx.fail(f.signature.clone(), f.summary.clone(), f.case.clone());
+        }
+    }
+    let states = (nodes.len() + m.configs.len()) as u64;
+    let transitions = nodes.len() as u64;
+    let expected_states = m.configs.len() as u64 * mcx::space::sequences_card(n, 0, max_len);
+    assert_eq!(states, expected_states, "history tree not enumerated completely");
+    for &(ci, h) in nodes.iter().step_by(nodes.len() / 5 + 1) {
+        let rep = m.check_node(ci, h, true);
+        ctx.sample(json!({"part": "S", "config": m.configs[ci].json(),
+                          "history": h.iter().map(|&i| m.u.sources[i].name).collect::<Vec<_>>(), "class": rep.class}));
+    }
+
+    // ---- part E
+    let ecases = e_cases(&m.u);
+    let eruns: Vec<(usize, bool)> = (0..ecases.len()).flat_map(|i| [(i, false), (i, true)]).collect();
+    let eobs: Vec<EObs> = eruns.par_iter().map(|&(i, d)| e_run(&ecases[i], d)).collect();
+    let mut e_hist: BTreeMap<String, BTreeMap<&'static str, u64>> = BTreeMap::new();
+    let (mut e_acc, mut e_rej, mut e_panic) = (0u64, 0u64, 0u64);
+    let mut e_err_variants: BTreeMap<String, u64> = BTreeMap::new();
+    for (&(i, d), obs) in eruns.iter().zip(eobs.iter()) {
+        let c = &ecases[i];
+        let h = e_hist.entry(c.class.to_string()).or_default();
+        *h.entry("cases").or_insert(0) += 1;
+        match obs {
+            EObs::Ok => {
+                e_acc += 1;
+                *h.entry("accepted").or_insert(0) += 1;
+            }
+            EObs::Err(v, _) => {
+                e_rej += 1;
+                *h.entry("rejected").or_insert(0) += 1;
+                *e_err_variants.entry(v.clone()).or_insert(0) += 1;
+            }
+            EObs::Panic(_) => {
+                e_panic += 1;
+                *h.entry("panicked").or_insert(0) += 1;
+            }
+        }
+        match c.expect {
+            Expect::Ok => *h.entry("expected_ok").or_insert(0) += 1,
+            Expect::Err => *h.entry("expected_err").or_insert(0) += 1,
+            Expect::NoPanic => *h.entry("expected_no_panic_only").or_insert(0) += 1,
+        }
+        if let Some(f) = e_check(c, d, obs) {
+            ctx.fail(f.signature, f.summary, f.case);
+        }
+    }
+    for &(i, d) in eruns.iter().step_by(eruns.len() / 3 + 1) {
+        ctx.sample(e_case_json(&ecases[i], d));
+    }
+
+    // ---- cross-check of the explorer with stateright (thorough tier)
+    let mut sr_json = json!({"run": false, "reason": "thorough tier only"});
+    if ctx.tier == Tier::Thorough {
+        use stateright::{Checker, Model};
+        let t0 = std::time::Instant::now();
+        let configs = m.configs.clone();
+        let names: Vec<&'static str> = m.u.sources.iter().map(|s| s.name).collect();
+        let checker = sr::HistoryModel(m).checker().threads(1).spawn_bfs().join();
+        let unique = checker.unique_state_count() as u64;
+        let discovery = checker.discovery("oracle");
+        let sr_verdict_clean = discovery.is_none();
+        let own_verdict_clean = unexplained_nodes.is_empty();
+        sr_json = json!({
+            "run": true, "threads": 1, "unique_states": unique, "generated_states": checker.state_count(),
+            "max_depth": checker.max_depth(), "own_states": states,
+            "verdict_clean": sr_verdict_clean, "own_verdict_clean": own_verdict_clean,
+            "wall_s": t0.elapsed().as_secs_f64(),
+        });
+        match discovery {
+            None => {
+                assert!(own_verdict_clean, "stateright found no violating state but the own enumeration did: {unexplained_nodes:?}");
+                assert_eq!(unique, states, "stateright and the own enumeration disagree on the number of states");
+            }
+            Some(path) => {
+                let last = path.last_state().clone();
+                let key = (last.0 as usize, last.1.iter().map(|&x| x as usize).collect::<Vec<_>>());
+                sr_json["discovery"] = json!({"config": configs[key.0].json(),
+                                              "history": key.1.iter().map(|&i| names[i]).collect::<Vec<_>>()});
+                assert!(
+                    unexplained_nodes.contains(&key),
+                    "stateright reports a violating state the own enumeration did not flag: {key:?}"
+                );
+            }
+        }
+    }
+
+    let cov = json!({
+        "states": states,
+        "transitions": transitions,
+        "traces_validated_against_impl": transitions,
+        "exhaustive": true,
+        "part_S": {
+            "configurations": Config::all().iter().map(|c| c.tag()).collect::<Vec<_>>(),
+            "sources": n,
+            "source_pool": pool,
+            "max_history_length": max_len,
+            "histories_per_configuration": hists.len() + 1,
+            "fresh_verdicts": fresh_hist,
+            "node_classes (fresh verdict -> verdict after history)": class_hist,
+            "cache_dependent": cache_dependent,
+            "failing_states": failing_nodes.len(),
+            "failing_states_not_explained_by_known_findings": unexplained_nodes.len(),
+            "fresh_phase_failures": fresh_fails.len(),
+            "compilations_executed_including_rematerialisation": hists.iter().map(|h| h.len() as u64).sum::<u64>() * Config::all().len() as u64,
+        },
+        "stateright_cross_check": sr_json,
+        "part_E": {
+            "cases": eruns.len(),
+            "distinct_sources": ecases.len(),
+            "assemblers": ["debug off", "debug on"],
+            "accepted": e_acc,
+            "rejected": e_rej,
+            "panicked": e_panic,
+            "per_class": e_hist,
+            "error_variants": e_err_variants,
+            "grid": "every parameterised instruction form x {lowest-1, lowest, highest, highest+1}; local index {0,n-1,n,65535,65536} x locals n in {0,1,2,65535} x {procedure, begin}; call/syscall/caller/exec/dyn* in kernel, program, library; export in executable; undefined/duplicate procedures; zero immediates of div/u32div/u32mod/u32divmod",
+            "profile": if cfg!(debug_assertions) { "checked (debug-assertions, overflow-checks)" } else { "release" },
+        },
+        "bounds": format!("{} sources, {} configurations, histories of length <= {}", n, Config::all().len(), max_len),
+    });
+    ctx.finish(
+        "model_checking",
+        cov,
+        &[
+            "the verdict of a fresh assembler of the same configuration is the reference for a source",
+            "the code-block table has no iterator: equality of tables is decided on their Debug rendering, the root sets reported are measured by probing with every digest seen in any reference program",
+            "MAST roots of library procedures used by the closure check are computed by the assembler itself (correctness of the hash is C08)",
+            "fixed execution inputs (stack 5..12 on top, empty advice)",
+            "source pool and libraries are fixed and finite; other sources are not covered",
+        ],
+    )
+}
+
+fn run_replay(ctx: &Ctx, case: &Value, known: Vec<Known>) -> i32 {
+    match case["part"].as_str() {
+        Some("E") => {
+            let (c, debug) = e_case_from_json(case);
+            let obs = e_run(&c, debug);
+            println!("source: {}", c.src);
+            println!("target: {:?}  debug mode: {debug}", c.target);
+            println!("observed: {obs:?}");
+            println!("expected: {:?} (class {}, family {}, point {})", c.expect, c.class, c.family, c.point);
+            if let Some(f) = e_check(&c, debug, &obs) {
+                ctx.fail(f.signature, f.summary, f.case);
+            }
+        }
+        Some("S") => {
+            let u = build_universe();
+            let m = Machine::new(u, 3, known);
+            let cfg = Config::from_json(&case["config"]);
+            let ci = m.configs.iter().position(|c| *c == cfg).expect("config");
+            let hist: Vec<usize> = case["history"]
+                .as_array()
+                .expect("history")
+                .iter()
+                .map(|nm| {
+                    m.u.sources
+                        .iter()
+                        .position(|s| Some(s.name) == nm.as_str())
+                        .unwrap_or_else(|| panic!("replay file names a source this build does not have: {nm}"))
+                })
+                .collect();
+            for (k, &i) in hist.iter().enumerate() {
+                assert_eq!(
+                    Some(m.u.sources[i].text.as_str()),
+                    case["history_sources"][k].as_str(),
+                    "replay file was recorded with a different source text for {}",
+                    m.u.sources[i].name
+                );
+            }
+            println!("configuration: {}", cfg.json());
+            println!("kernel module (configurations with a kernel):\n{KERNEL_SRC}");
+            for (path, text) in [("l1::base", L1_BASE), ("l1::b", L1_B), ("l1::util", L1_UTIL), ("l2::re", L2_RE), ("l2::deep", L2_DEEP),
+                                 ("l2::nest", L2_NEST), ("l2::util", L2_UTIL), ("l2::half", L2_HALF)] {
+                println!("library module {path}:\n{text}");
+            }
+            println!("library module l1::a:\nexport.p2 push.<the four elements of the MAST root of l1::base::foo = {}> end\n", hex(&m.u.foo_root));
+            for (k, &i) in hist.iter().enumerate() {
+                println!("compile #{k}: {} :: {}", m.u.sources[i].name, m.u.sources[i].text);
+            }
+            let si = *hist.last().expect("non-empty history");
+            println!("fresh assembler  : {}", m.fresh[ci][si].brief());
+            if let Verdict::Ok(c) = &m.fresh[ci][si] {
+                println!("   cb_table roots : {:?}", table_roots(&c.program, &m.probes));
+            }
+            let asm = build_assembler(&m.u, cfg).expect("assembler");
+            for &h in &hist[..hist.len() - 1] {
+                let r = compile_once(&m.u, &asm, h, false);
+                println!("   after {} -> {}", m.u.sources[h].name, r.brief());
+            }
+            let got = compile_once(&m.u, &asm, si, true);
+            println!("after the history: {}", got.brief());
+            if let Verdict::Ok(c) = &got {
+                println!("   cb_table roots : {:?}", table_roots(&c.program, &m.probes));
+                println!("   missing call targets {:?}, missing procref targets {:?}", c.walk.missing_calls, c.missing_procrefs);
+            }
+            println!("expected: the same verdict, program and execution outcome as on the fresh assembler");
+            if hist.len() == 1 {
+                for f in m.check_fresh() {
+                    if f.case == m.case_json(ci, &hist) {
+                        ctx.fail(f.signature, f.summary, f.case);
+                    }
+                }
+            }
+            for f in m.check_node(ci, &hist, true).fails {
+                ctx.fail(f.signature, f.summary, f.case);
+            }
+        }
+        Some("S-root") => {
+            let u = build_universe();
+            println!("program: {}", case["src"]);
+            match u.root_failures.iter().find(|(p, _, _)| Some(p.as_str()) == case["path"].as_str()) {
+                Some((path, src, e)) => {
+                    println!("fresh assembler (L1,L2; no kernel): {e}");
+                    println!("expected: Ok (exec of an exported library procedure)");
+                    ctx.fail(
+                        json!({"part": "S", "kind": "valid_source_rejected", "source": format!("exec of {path}")}),
+                        format!("a fresh assembler (L1,L2; no kernel) refuses the valid program `{src}`: {e}"),
+                        case.clone(),
+                    );
+                }
+                None => println!("fresh assembler (L1,L2; no kernel): compiles (expected)"),
+            }
+        }
+        Some("S-cross") | Some("S-pair") => {
+            let u = build_universe();
+            let m = Machine::new(u, 1, known);
+            for (ci, c) in m.configs.iter().enumerate() {
+                for (si, s) in m.u.sources.iter().enumerate() {
+                    let relevant = case["source"].as_str() == Some(s.name)
+                        || case["a"].as_str() == Some(s.name)
+                        || case["b"].as_str() == Some(s.name);
+                    if relevant {
+                        println!("[{}] {} -> {}", c.tag(), s.name, m.fresh[ci][si].brief());
+                    }
+                }
+            }
+            println!("expected: identical programs");
+            for f in m.check_fresh() {
+                if f.case == *case {
+                    ctx.fail(f.signature, f.summary, f.case);
+                }
+            }
+        }
+        other => panic!("unknown replay case kind {other:?}"),
+    }
+    ctx.finish("model_checking", json!({}), &[])
 }
